@@ -564,10 +564,9 @@ def _settings(repo, rep):
               "settings", construct="filler-call")
     for name in ("visit_UseInternalMacro", "visit_UseExternalMacro"):
         r = L.emission(repo, CC + name)
-        ok = any(isinstance(w, A.Frag) and L.frag_find(
-            w, "_F(__stream, econtext.copy(), rcontext, __i18n_domain, "
-               "__i18n_context, target_language)", "expr")
-            for w in A.walk(r.emission))
+        ok = L.scoped_call(L.Lin(r.emission), "_F(__stream, _C, rcontext, "
+                           "__i18n_domain, __i18n_context, target_language)"
+                           )[0] >= 0
         rep.check(ok, "R10.3", CC + name, "a macro is called with the "
                   "caller's translation settings", construct="macro-call")
     rf = repo.func("chameleon.template.BaseTemplate.render")
